@@ -161,6 +161,19 @@ def build_targets(case, res, conv):
             if res[s0 + j]["out"]["result"] != "ok":
                 findings.append(("split/extract-err", "extract_range for split %d returned Err: %s" % (k, res[s0 + j]["out"]), "structural"))
                 return targets, n0, findings
+        # shape bookkeeping of the two extracted parts against the shapes implied by the operator list itself
+        dims = [n0]
+        for l in case["layers"]:
+            dims.append(len(l["M"]) if l["t"] == "linear" else (1 if l["t"] in ("argmax", "classchar") else dims[-1]))
+        nops_ = case["meta"]["accepted_ops"]
+        for j, (lo, hi) in enumerate(((0, k), (k, nops_))):
+            o = res[s0 + j]["out"]
+            want = {"input": dims[lo], "shape": dims[hi], "n_ops": hi - lo}
+            got = {t: o[t] for t in want}
+            if got != want:
+                findings.append(("split/extracted-shape", "extract_range(%d, %d) of %s: input/current shape/operators %s, the operator "
+                                 "list implies %s" % (lo, hi, case["meta"]["word"], got, want), "structural"))
+                return targets, n0, findings
         targets.append(Target("split at %d of %d" % (k, case["meta"]["accepted_ops"]), "p", res[s0 + 5]["out"], s0 + 5, ref,
                               eps=FR(1, 10**9) if rounding else None, box=(1 << 10) if rounding else None,
                               tighten=FR(1, 10**6) if rounding else None, sig="split",
